@@ -297,12 +297,15 @@ structure Facts where
   /-- gateway TTL floor -/
   ttlThresh : Option Int
   ttlFloor : Option Int
+  /-- gateway `Lock` passes `context.WithoutCancel(ctx)` to the locker (a queued RPC is never
+      abandoned half-way: the `cancel` action then only arises inside the lock package) -/
+  gwWithoutCancel : Tri
   deriving Repr
 
 def structural (f : Facts) : Bool :=
   f.enqueueUnderMu.isYes && f.removeUnderMu.isYes && f.readyCloseSites == some 2 &&
   f.enqueueGrantsWhenEmpty.isYes && f.wasHeadIsIndexZero.isYes &&
-  f.cancelRemoves.isYes && f.ttlRemoves.isYes && f.unlockRemoves.isYes
+  f.cancelRemoves.isYes && f.ttlRemoves.isYes && f.unlockRemoves.isYes && f.gwWithoutCancel != .unknown
 
 def classifyCore (w : Wake) (h : Bool) (th fl : Int) : Verdict :=
   match w, h with
